@@ -710,6 +710,9 @@ class FakeSubprocessModule:
         self.peer = peer
         self.argv_log = []
         self.recorder = recorder
+        self.popen_calls = 0
+        self.stall_on_call = None
+        self.stalls_fired = 0
 
     def run(self, args, input=None, stdout=None, **kw):
         self.argv_log.append(list(args))
@@ -723,16 +726,42 @@ class FakeSubprocessModule:
         mod = self
 
         class P:
-            pid = 0
+            pid = 4242
 
             def communicate(self_inner, data=None, timeout=None):
                 mod.argv_log.append(list(args))
+                mod.popen_calls += 1
                 if mod.recorder is not None:
                     mod.recorder.append(("subprocess", list(args)))
+                if mod.stall_on_call is not None and mod.popen_calls == mod.stall_on_call:
+                    # a stalled solver: the deadline passes without a reply
+                    mod.peer.result.hit("fault:solver_stalled_until_timeout")
+                    mod.stalls_fired += 1
+                    raise mod.TimeoutExpired()
                 reply = mod.peer.respond(data.decode("ascii") if data else "", "subprocess:" + str(args[0]))
                 return reply.encode("utf-8"), b""
 
         return P()
+
+
+class FakePsutil:
+    """Stands in for psutil in cspuz.backend._subproc (the timeout path needs it)."""
+
+    def __init__(self):
+        self.signals = []
+        outer = self
+
+        class Process:
+            def __init__(self, pid):
+                self.pid = pid
+
+            def children(self, recursive=False):
+                return [outer.Process(self.pid + 1)] if self.pid == 4242 else []
+
+            def send_signal(self, sig):
+                outer.signals.append((self.pid, int(sig)))
+
+        self.Process = Process
 
 
 def fake_extension_module(name, peer, recorder=None):
@@ -760,10 +789,17 @@ EXT_MODULES = ("pycsugar", "enigma_csp", "cspuz_core")
 
 
 @contextlib.contextmanager
-def installed_peer(peer, recorder=None, modules=EXT_MODULES):
-    """Route subprocess calls and extension-module calls of cspuz to ``peer``."""
+def installed_peer(peer, recorder=None, modules=EXT_MODULES, psutil=False):
+    """Route subprocess calls and extension-module calls of cspuz to ``peer``.
+
+    psutil=True makes the timeout path of run_subprocess reachable (Popen + communicate with a
+    deadline) by providing a fake psutil; the real package is not installed here."""
     import cspuz.backend._subproc as sp
 
+    saved_ps = (getattr(sp, "_PSUTIL_AVAILABLE", False), getattr(sp, "psutil", _MISSING))
+    if psutil:
+        sp._PSUTIL_AVAILABLE = True
+        sp.psutil = FakePsutil()
     saved_sub = sp.subprocess
     saved_mods = {n: _sys.modules.get(n, _MISSING) for n in EXT_MODULES}
     fake = FakeSubprocessModule(peer, recorder)
@@ -777,6 +813,12 @@ def installed_peer(peer, recorder=None, modules=EXT_MODULES):
         yield fake
     finally:
         sp.subprocess = saved_sub
+        sp._PSUTIL_AVAILABLE = saved_ps[0]
+        if saved_ps[1] is _MISSING:
+            if hasattr(sp, "psutil"):
+                del sp.psutil
+        else:
+            sp.psutil = saved_ps[1]
         for n, m in saved_mods.items():
             if m is _MISSING:
                 _sys.modules.pop(n, None)
